@@ -51,4 +51,10 @@ CLAIMED["C06"] = {
     "technique": "Lean 4 proof over a statement-level fault model + fault enumeration by SQLite triggers + SIGKILL campaign against the real code",
 }
 
+CLAIMED["C10"] = {
+    "text": "Two layers. (1) Theorems about the lock-protocol model (Lean, every schedule of every length): the published state always equals the non-interleaved execution of the committed transactions in commit order with plain-session calls as singleton transactions (model_serializable), refused calls and rolled-back transactions contribute nothing, a call that fails under contention has no effect. (2) A verified history checker: accept => the observed final state is the outcome of a serial order in which every transaction read what its predecessors wrote (checker_sound), an accepted reader snapshot is exactly a prefix state (snapshot_sound), increments are never lost (no_lost_update) and a lost update is rejected in either order. The checker judges histories produced by real threads: counter increments, sum-preserving transfers over 40+ accounts with concurrent fetch_all and multi-page scans, racing unique-token inserts, concurrent profile operations, on file-backed WAL and in-memory stores, pool sizes 1-8, busy timeouts 50-3000 ms, with a deadlock watchdog and panic capture; the harness judges the same histories independently.",
+    "note": "PARTIAL by nature: which interleavings real threads produce and SQLite's actual locking are outside any theorem here; they are sampled (150 runs quick, 3000 thorough), not enumerated. The serial order is fixed by a version record every transaction increments, so no wall-clock ordering of log entries is trusted.",
+    "technique": "Lean 4 proof (serializability of the lock-protocol model; soundness of a history checker) + concurrency campaign on real threads judged by the verified checker",
+}
+
 NOT_YET = {}
